@@ -23,6 +23,17 @@ inline int key_of(const Val &v) { return v.key; }
 inline int key_of(int k) { return k; }
 inline int key_of(double d) { return static_cast<int>(d); }
 
+template <int K>
+inline unsigned pay_of(const Tracked<K> &e) { return e.pay; }
+inline unsigned pay_of(const TC4 &e) { return e.pay; }
+inline unsigned pay_of(const TC1 &e) { return static_cast<unsigned>(e.b >> 3); }
+inline unsigned pay_of(const TC8 &e) { return e.pay; }
+inline unsigned pay_of(const TC12 &e) { return e.pay; }
+inline unsigned pay_of(const TC16A &e) { return e.pay; }
+inline unsigned pay_of(const Val &v) { return v.pay; }
+template <class X>
+inline unsigned pay_of(const X &) { return 0; }  // raw arithmetic and key-only elements
+
 static const int kHarnessOrigin = 0x5A;
 
 // Common part: `origin` tells whether this instance descends (by copy) from the instance the harness passed in.
@@ -67,6 +78,19 @@ struct Coarse : CmpProv {
   bool operator()(const A &a, const B &b) const { called(); return key_of(a) / 2 < key_of(b) / 2; }
   static const char *name() { return "coarse"; }
 };
+// finer than operator== of the elements (which compares keys only): orders by key, then by the parity of the payload. Two elements that are
+// == to each other can both be in the set; an implementation that decides with operator== instead of the comparator drops one of them.
+struct FinePar : CmpProv {
+  FinePar() {}
+  explicit FinePar(int o) : CmpProv(o) {}
+  template <class A, class B>
+  bool operator()(const A &a, const B &b) const {
+    called();
+    int ka = key_of(a), kb = key_of(b);
+    return ka != kb ? ka < kb : (pay_of(a) & 1u) < (pay_of(b) & 1u);
+  }
+  static const char *name() { return "fine_parity"; }
+};
 // direction held in the object: a default-constructed instance orders the other way round
 struct Stateful : CmpProv {
   int dir;
@@ -78,7 +102,11 @@ struct Stateful : CmpProv {
   static const char *name() { return "stateful"; }
 };
 // heterogeneous key that is equivalent to a *run* of elements: all elements whose key / 2 equals c (consistent with the order by key)
-struct HalfKey { int c; };
+struct HalfKey {
+  int c;
+  int shift;  // the key designates all elements with (key >> shift) == c: a run of up to 2^shift consecutive keys
+  explicit HalfKey(int c_, int shift_ = 1) : c(c_), shift(shift_) {}
+};
 // transparent comparator (heterogeneous lookups with int keys, and with HalfKey designating several elements at once)
 struct TLess : CmpProv {
   typedef void is_transparent;
@@ -87,9 +115,9 @@ struct TLess : CmpProv {
   template <class A, class B>
   bool operator()(const A &a, const B &b) const { called(); return key_of(a) < key_of(b); }
   template <class A>
-  bool operator()(const A &a, const HalfKey &h) const { called(); return (key_of(a) >> 1) < h.c; }
+  bool operator()(const A &a, const HalfKey &h) const { called(); return (key_of(a) >> h.shift) < h.c; }
   template <class B>
-  bool operator()(const HalfKey &h, const B &b) const { called(); return h.c < (key_of(b) >> 1); }
+  bool operator()(const HalfKey &h, const B &b) const { called(); return h.c < (key_of(b) >> h.shift); }
   static const char *name() { return "transparent_less"; }
 };
 
